@@ -197,6 +197,11 @@ CHAINED = [
     ("class Acct:\n    def __init__(self):\n        self.balance = 10\n    def fee(self):\n        self.balance = 100\n        return 1\nac = Acct()", "ac.balance -= ac.fee()\nL('bal', ac.balance)", []),
     ("st = [[1], [2]]", "st[0] += st.pop()", ["st"]),
     ("pass", "t[0, 1:3] += 2\nt[..., 1:] = 5\nt[1:2, 0] *= 3\nt[::2,] = 7", []),
+    # slices with a STEP inside a tuple index
+    ("pass", "t[1:9:2, 0] = 4\nt[::2, 1:] += 2\nt[0, ::-1, 1:2:3] = 6\nt[1::2,] *= 2", []),
+    # annotated stores to attribute / subscript targets: value first, then the target's object and index
+    ("def mkq():\n    L('obj')\n    return o\ndef kq():\n    L('key')\n    return 'k'\ndef vq():\n    L('val')\n    return 5",
+     "mkq().a1: int = vq()\nb[kq()]: int = vq()\nmkq().a2: 'str' = vq()", []),
 ]
 
 
